@@ -390,6 +390,13 @@ func (p *service) onPublish(msg *message.PublishMessage) error {
 		return err
 	}
 
+	// A message forwarded to an established subscription carries retain flag 0
+	// (MQTT-3.3.1-9), for in-process subscribers as well.
+	sr := msg.Retain()
+	if sr {
+		msg.SetRetain(false)
+	}
+
 	for i, s := range p.subs {
 		if s != nil {
 			fn := s.(*OnPublishFunc)
@@ -399,6 +406,11 @@ func (p *service) onPublish(msg *message.PublishMessage) error {
 				log.Warningf("%v", err)
 			}
 		}
+	}
+
+	// restore retain flag
+	if sr {
+		msg.SetRetain(true)
 	}
 
 	return nil
